@@ -4,6 +4,7 @@ Model: FpVerif/Model/JA4.lean (utls FromRaw as far as JA4 reads it + pkg/ja4). S
 `T` is the truncated hash (first 12 hex digits of SHA-256 in the code): a parameter of every theorem.
 -/
 import FpVerif.Lemmas.JA4
+import FpVerif.Lemmas.JA4Parse
 import FpVerif.Properties.C05
 import FpVerif.Gen.JA4
 set_option linter.unusedSimpArgs false
@@ -30,6 +31,64 @@ theorem gen_ok_helpers :
 theorem gen_ok_sigalg : Gen.JA4.sigAlgLoop =
     "varalgo[]uint16;for_,e:=rangechs.Extensions{ifsae,ok:=e.(*utls.SignatureAlgorithmsExtension);ok{for_,a:=rangesae.SupportedSignatureAlgorithms{ifisGREASEUint16(uint16(a)){continue}algo=append(algo,uint16(a))}}};j.SignatureAlgorithms=algo" := by
   rfl
+
+/-- Header value, for any truncated hash `T`: a function of the record bytes only (`none`: FromRaw rejects the record) -/
+def ja4Header (T : Bytes → Bytes) (rec : Bytes) : Option Bytes := (parseView rec).map (ja4String T)
+
+/-- THE PROPERTY AT FULL STRENGTH for the pure part: for EVERY well-formed ClientHello (any cipher / extension /
+signature-algorithm / ALPN / supported_versions content, known and unknown extension types, GREASE anywhere, more than 99
+ciphers or extensions, with or without an extensions block) and every truncated hash `T`, the header value computed from
+the record the client sent is the FoxIO JA4 of THAT hello. `HelloWF4` asks that lengths fit their fields and that the
+extensions utls validates are well formed (non-empty lists, one host_name without a trailing dot, …); the two uniqueness
+hypotheses exclude hellos that repeat supported_versions or ALPN (first-vs-last). -/
+theorem ja4_of_hello (T : Bytes → Bytes) (h : Tls.Hello) (hw : HelloWF4 h)
+    (huv : ((h.exts.getD []).filter isVersE).length ≤ 1) (hua : ((h.exts.getD []).filter isAlpnE).length ≤ 1) :
+    ja4Header T (Tls.serialize h) = some (Spec.JA4.ja4Spec T h) := by
+  unfold ja4Header
+  rw [parseView_serialize h hw]
+  simp only [Option.map_some]
+  congr 1
+  apply ja4_view_eq_spec T h _ huv hua
+  intro e he
+  cases hx : h.exts with
+  | none => rw [hx] at he; simp at he
+  | some es => rw [hx] at he; exact (hw.2.2.2.2 es hx).1 e (by simpa using he)
+
+/-- non-vacuity: a TLS 1.3-style hello with GREASE in ciphers, extensions, versions and signature algorithms -/
+def sampleHello : Tls.Hello :=
+  { recVer := 0x0301, hsVer := 0x0303, random := List.replicate 32 7, sid := List.replicate 32 9,
+    ciphers := [0x0a0a, 4865, 4866, 0xc02b, 0xfafa], comp := [0],
+    exts := some [.raw 0x2a2a [], .sni [(0, strBytes "example.test")], .groups [0x3a3a, 29, 23], .points [0],
+                  .alpn [strBytes "h2", strBytes "http/1.1"], .versions [0x7a7a, 0x0304, 0x0303], .sigalgs [0x0403, 0x1a1a, 0x0804],
+                  .raw 65281 [0], .raw 0x1a1a [0]] }
+
+theorem sampleHello_wf : HelloWF4 sampleHello := by
+  refine ⟨by decide, by decide, by decide, by decide, ?_⟩
+  intro es hes
+  have : es = [.raw 0x2a2a [], .sni [(0, strBytes "example.test")], .groups [0x3a3a, 29, 23], .points [0],
+                  .alpn [strBytes "h2", strBytes "http/1.1"], .versions [0x7a7a, 0x0304, 0x0303], .sigalgs [0x0403, 0x1a1a, 0x0804],
+                  .raw 65281 [0], .raw 0x1a1a [0]] := by
+    simp only [sampleHello, Option.some.injEq] at hes; exact hes.symm
+  subst this
+  refine ⟨?_, by decide⟩
+  intro e he
+  simp only [List.mem_cons, List.not_mem_nil, or_false] at he
+  rcases he with rfl | rfl | rfl | rfl | rfl | rfl | rfl | rfl | rfl
+  · exact ⟨by decide, by decide, by decide, by decide, by decide⟩
+  · refine ⟨by decide, ?_, by decide⟩
+    refine ⟨by decide, by decide, ?_⟩
+    rw [if_neg (by decide)]
+    exact ⟨rfl, by decide, trivial⟩
+  · show 2 * 3 < 65534; decide
+  · show 1 < 256; decide
+  · refine ⟨by decide, ?_, by decide⟩
+    intro p hp
+    simp only [List.mem_cons, List.not_mem_nil, or_false] at hp
+    rcases hp with rfl | rfl <;> exact ⟨by decide, by decide⟩
+  · exact ⟨by decide, by decide⟩
+  · exact ⟨by decide, by decide⟩
+  · exact ⟨by decide, by decide, by decide, by decide, by decide⟩
+  · exact ⟨by decide, by decide, by decide, by decide, by decide⟩
 
 /-- JA4 is a function of eight quantities read off the parsed hello -/
 theorem ja4String_congr (T : Bytes → Bytes) (v v' : View)
